@@ -10,16 +10,19 @@ TracePlan == [b \in 1..Len(Raw[1].plan) |-> [inst |-> Raw[1].plan[b].inst, cases
 TraceMax  == Raw[1].maxServers
 Clean     == Raw[1].clean      \* no fault injected: nothing may be a setup failure
 
-VARIABLE l
+VARIABLES l, pid
 Ev == Raw[l]
-TInit == Init /\ l = 2
+TInit == Init /\ l = 2 /\ pid = [b \in Batches |-> 0]
 TNext ==
-  \/ Internal /\ UNCHANGED l
+  \/ Internal /\ UNCHANGED <<l, pid>>
   \/ /\ l <= Len(Raw) /\ l' = l + 1
-     /\ \/ Ev.e = "Up"   /\ \E b \in Batches : Plan[b].inst = Ev.inst /\ Up(b, Ev.addr)
-        \/ Ev.e = "Send" /\ Ev.probe /\ Ev.hdr /\ \E b \in Batches : Send(b, Ev.name, Ev.addr, Ev.inst)
-        \/ Ev.e = "Stop" /\ \E b \in Batches : addr[b] = Ev.addr /\ Stop(b)
-        \/ Ev.e = "Finish" /\ Finish
+     /\ \/ Ev.e = "Started" /\ \E b \in Batches : Plan[b].inst = Ev.inst /\ Started(b) /\ pid' = [pid EXCEPT ![b] = Ev.pid]
+        \/ Ev.e = "Gone" /\ \E b \in Batches : pid[b] = Ev.pid /\ Gone(b) /\ UNCHANGED pid
+        \/ Ev.e = "Up"   /\ \E b \in Batches : pid[b] = Ev.pid /\ Plan[b].inst = Ev.inst /\ Up(b, Ev.addr) /\ UNCHANGED pid
+        \/ Ev.e = "Send" /\ Ev.probe /\ Ev.hdr /\ (\E b \in Batches : Send(b, Ev.name, Ev.addr, Ev.inst)) /\ UNCHANGED pid
+        \/ Ev.e = "Stop" /\ UNCHANGED pid
+             /\ \E b \in Batches : pid[b] = Ev.pid /\ (IF srv[b] = "up" THEN Stop(b) ELSE (srv[b] = "stopped" /\ UNCHANGED vars))
+        \/ Ev.e = "Finish" /\ Finish /\ UNCHANGED pid
              /\ Range(Ev.outcomes) = AllCases                  \* exactly the selected permutations have an outcome
              /\ Range(Ev.setup) = setupFailed                  \* and exactly the never-sent ones are setup failures
              /\ (Clean => setupFailed = {})
